@@ -593,6 +593,50 @@ func CLI(j *job.Job, s *job.Sink) {
 				s.Violation(c, j.CaseID(c), "C05.cli", "output-varies:yangentry", fmt.Sprintf("%d different results of yangentry.Parse over 12 calls, e.g. %q and %q", len(outs), first[0], first[1]), fs, map[string]any{"format": "yangentry"})
 			}
 		}
+		// One set in three is read file by file from a directory in which one file is
+		// rejected and another one imports a module that only the search path supplies: in
+		// which order the caller offers the files must not decide whether the import resolves.
+		if c%3 == 2 {
+			sub := filepath.Join(dir, "zzsub")
+			os.MkdirAll(sub, 0o755)
+			broken := []string{"module zzbroken {\n  namespace \"urn:zzbroken\";\n  prefix zb;\n  leaf x { type string; }\n", "module zzbroken {\n  namespace \"urn:zzbroken\";\n  prefix zb;\n  frobnicate y;\n}\n", "module zzmain2 {\n  namespace \"urn:zzbroken\";\n  prefix zb;\n  leaf-list { }\n}\n"}[r.Intn(3)]
+			disk := []file{{"zzbroken.yang", broken},
+				{"zzmain.yang", "module zzmain {\n  namespace \"urn:zzmain\";\n  prefix zm;\n  import zzdep { prefix zd; }\n  leaf l { type zd:t; }\n}\n"},
+				{"zzmain2.yang", "module zzmain2 {\n  namespace \"urn:zzmain2\";\n  prefix zm2;\n  include zzsubm;\n  leaf l2 { type st; }\n}\n"}}
+			for _, f := range append(disk, file{"zzdep.yang", "module zzdep {\n  namespace \"urn:zzdep\";\n  prefix zd;\n  typedef t { type int8; }\n}\n"}, file{"zzsubm.yang", "submodule zzsubm {\n  belongs-to zzmain2 { prefix zm2; }\n  typedef st { type uint8; }\n}\n"}) {
+				os.WriteFile(filepath.Join(sub, f.Name), []byte(f.Text), 0o644)
+			}
+			outs := map[string]int{}
+			idx := []int{0, 1, 2}
+			for k := 0; k < 12; k++ {
+				r.Shuffle(len(idx), func(a, b int) { idx[a], idx[b] = idx[b], idx[a] })
+				ms := yang.NewModules()
+				var rerr []string
+				for _, i := range idx {
+					if err := ms.Read(filepath.Join(sub, disk[i].Name)); err != nil {
+						rerr = append(rerr, "LOAD "+err.Error())
+					}
+				}
+				sort.Strings(rerr)
+				errs := ms.Process()
+				outs[strings.Join(rerr, "\n")+"\n"+dump.Set(ms, errs, true)]++
+				s.Count("executions", 1)
+			}
+			s.Count("sets_read_from_a_directory_with_a_rejected_file", 1)
+			if len(outs) > 1 {
+				var first []string
+				for o := range outs {
+					if i := strings.Index(o, "ERROR"); i >= 0 && len(o) > i+200 {
+						o = o[i : i+200]
+					} else if len(o) > 200 {
+						o = o[:200]
+					}
+					first = append(first, o)
+				}
+				sort.Strings(first)
+				s.Violation(c, j.CaseID(c), "C05.cli", "outcome-varies:rejected-read", fmt.Sprintf("%d different outcomes over 12 orders of reading the files of one directory, e.g. %q and %q", len(outs), first[0], first[1]), append(fs, disk...), map[string]any{"format": "reads"})
+			}
+		}
 		os.RemoveAll(dir)
 	}
 }
